@@ -466,6 +466,7 @@ func c08Matrix(r *R, prop string) {
 
 	// ---- C09 ----
 	// (e)+(f) nobody alive is paused or half-stopped; probes are processed by the living and dead-lettered for the dead
+	vsimrt.Fence()
 	for _, ci := range actor.VsimContexts(sysI) {
 		if ci.Path == "/" || ci.Path == "/obs" {
 			continue
@@ -663,6 +664,7 @@ func c08WhileStopping(r *R, prop string) {
 		return
 	}
 	if prop == "C09" {
+		vsimrt.Fence()
 		for _, ci := range actor.VsimContexts(actor.VsimSystem(w.Sys)) {
 			if ci.Path != "/" && (ci.State == 1 || (ci.State == 0 && ci.Paused)) {
 				r.Fail("C09/left-paused-or-half-stopped after-failure-while-stopping", "%s: state=%d paused=%v", ci.Path, ci.State, ci.Paused)
@@ -777,6 +779,7 @@ func c09Zombie(r *R) {
 			return
 		}
 	}
+	vsimrt.Fence()
 	for _, ci := range actor.VsimContexts(actor.VsimSystem(w.Sys)) {
 		if ci.Path == "/sup/z" {
 			if !ci.Zombie {
@@ -899,6 +902,7 @@ func c09Concurrent(r *R) {
 	if r.Failed() {
 		return
 	}
+	vsimrt.Fence()
 	for _, ci := range actor.VsimContexts(actor.VsimSystem(w.Sys)) {
 		if ci.Path == "/" || ci.Zombie {
 			continue
@@ -917,6 +921,7 @@ func c09Concurrent(r *R) {
 	// probes: processed by whoever is registered under the path now, dead-lettered otherwise
 	ids := map[string]int{}
 	alive := map[string]bool{}
+	vsimrt.Fence()
 	for _, ci := range actor.VsimContexts(actor.VsimSystem(w.Sys)) {
 		alive[ci.Path] = ci.State == 0
 	}
